@@ -316,7 +316,7 @@ def write_evidence(prop, tier, seed, level, coverage, assumptions, wall, nviol):
 # --------------------------------------------------------------------------- C18
 
 C18_PLAN = {
-    "quick": dict(runs=20000, scheds=4, cold=128, selftest=192, miri_light=4, miri_full=2, miri_conv=16, budget=900),
+    "quick": dict(runs=16000, scheds=4, cold=128, selftest=192, miri_light=4, miri_full=2, miri_conv=16, budget=900),
     "thorough": dict(runs=750000, scheds=4, cold=2048, selftest=2048, miri_light=192, miri_full=48, miri_conv=192, budget=7200),
 }
 
@@ -560,7 +560,7 @@ def check_c18(tier, seed):
     n_scenarios = count_distinct(hash_files["scenarios"])
     batch.cleanup()
     sim_wall = max([o["wall_s"] for o in outs], default=0.0)
-    log(f"[C18] main batch: {agg['runs']} scenarios, {agg['executions']} executions, {agg['steps']} seam points, "
+    log(f"[C18] main batch ({time.time() - t0:.0f}s): {agg['runs']} scenarios, {agg['executions']} executions, {agg['steps']} seam points, "
         f"{n_schedules} distinct interleavings, {agg['overlap_execs']} with overlapping operations, faults {fired}")
     # ---- cold-start runs: one scenario per fresh process, each executed twice - once with
     # the reference keys observed in forward and once in reverse order. Whatever the library
@@ -611,13 +611,13 @@ def check_c18(tier, seed):
     for o in cold_outs:
         raws.extend(o["violations"])
         merge_counts(fired, o["fired"])
-    log(f"[C18] cold-start: {len(cold_outs)} fresh processes, {cold_execs} executions, {cold_pairs_compared} forward/reverse reference tables compared")
+    log(f"[C18] cold-start ({time.time() - t0:.0f}s): {len(cold_outs)} fresh processes, {cold_execs} executions, {cold_pairs_compared} forward/reverse reference tables compared")
     # ---- determinism selftest / cross-process oracle (O4)
     if sim_limited:
         st = {"seeds": 0, "divergences": 0, "skipped": "simulated scheduling is blocked by a std primitive held across a scheduling point (see NOTE lines)"}
     else:
         st = selftest(seed, plan["selftest"], raws)
-    log(f"[C18] selftest: {st}")
+    log(f"[C18] selftest ({time.time() - t0:.0f}s): {st}")
     # ---- Miri
     miri = {"light_seeds": 0, "full_seeds": 0, "ub_reports": 0, "failures": []}
     miri_viol = 0
@@ -640,7 +640,7 @@ def check_c18(tier, seed):
                 log(f"  Miri {shape} seed {s}: {'undefined behaviour' if ub else 'mismatch / failure'}")
                 log("  " + txt.strip().splitlines()[-1][:300] if txt.strip() else "")
                 log(f"VIOLATION property=C18 replay={p}")
-        log(f"[C18] Miri: {lo} light + {fo} full + {co} conv seeds clean, {miri_viol} failing")
+        log(f"[C18] Miri ({time.time() - t0:.0f}s): {lo} light + {fo} full + {co} conv seeds clean, {miri_viol} failing")
     unlisted = report("C18", raws) + real_hangs + st["divergences"] + miri_viol + cold_div
     wall = time.time() - t0
     execs = agg["executions"] + cold_execs
